@@ -275,6 +275,33 @@ def chunks_problems(repo, rep=None):
     return r['p2'], r['p3'], (r['chunks'] or r['f'])
 
 
+def send_limit_problems(repo, hier):
+    """C06.S7 / C10.X3: every message encode reached from Association.send -- directly or through helper methods it hands the
+    message to -- is given the association's negotiated ``self.max_pdu_length`` as its limit, and nothing else in the package
+    encodes messages.  Decided on the terms at the encode call, so the limit may travel through parameters."""
+    send = repo.func('asceprovider', 'Association.send')
+    c = SymClient(repo, send, event_of=ev_kind, hierarchy=hier, inline=repo.is_helper)
+    c.run(empty_state())
+    probs = []
+    evs = [e for e, _s in c.log if e.kind == 'msg.encode']
+    reached = {e.fn for e in evs}
+    for e in evs:
+        lim = e.args[1] if len(e.args) > 1 else dict(e.kwargs).get('max_pdu_length', '?')
+        if lim != 'self.max_pdu_length':
+            probs.append('Association.send passes %s as the limit, not the negotiated self.max_pdu_length' % lim)
+    if not evs:
+        probs.append('Association.send does not call encode(pc_id, limit)')
+    for fi in repo.all_functions():
+        for n in ast.walk(fi.node):
+            if isinstance(n, ast.Call) and isinstance(n.func, ast.Attribute) and n.func.attr == 'encode' and len(n.args) + len(n.keywords) == 2:
+                # dsutils.encode(ds, a, b) has three arguments; PDU.encode() none
+                if norm(n.func.value) in ('dsutils',):
+                    continue
+                if fi.key != send.key and fi.key not in reached:
+                    probs.append('%s calls encode(%s) outside Association.send' % (fi.key, ', '.join(norm(a) for a in n.args)))
+    return sorted(set(probs))
+
+
 def run(repo, rep):
     dm = repo.module('dimsemessages')
     hier = exc_hierarchy(repo)
@@ -507,24 +534,7 @@ def run(repo, rep):
                rule_map={'L1': 'S8', 'L2': 'S8', 'L3': 'S8', 'L5': 'S8'})
 
     # ---------------------------------------------------------------- S7
-    sites = []
-    for fi in repo.all_functions():
-        for n in ast.walk(fi.node):
-            if isinstance(n, ast.Call) and isinstance(n.func, ast.Attribute) and n.func.attr == 'encode' and len(n.args) + len(n.keywords) == 2:
-                # dsutils.encode(ds, a, b) has three arguments; PDU.encode() none
-                if norm(n.func.value) in ('dsutils',):
-                    continue
-                sites.append((fi, n))
-    p7 = []
-    for fi, n in sites:
-        if fi.key != 'asceprovider:Association.send':
-            p7.append('%s calls encode(%s) outside Association.send' % (fi.key, ', '.join(norm(a) for a in n.args)))
-        else:
-            lim = norm(n.args[1]) if len(n.args) > 1 else norm(n.keywords[-1].value)
-            if lim != 'self.max_pdu_length':
-                p7.append('Association.send passes %s as the limit, not the negotiated self.max_pdu_length' % lim)
-    if not any(fi.key == 'asceprovider:Association.send' for fi, _ in sites):
-        p7.append('Association.send does not call encode(pc_id, limit)')
+    p7 = send_limit_problems(repo, hier)
     sendf = repo.func('asceprovider', 'Association.send')
     rep.analysed(sendf)
     rep.check(not p7, 'C06.S7', 'asceprovider:Association.send:limit-source', sendf.loc(),
